@@ -420,12 +420,24 @@ class Interp:
 
     def callexpr(self, e, env):
         f = e.func
-        if any(k.arg is None for k in e.keywords):
-            raise Unsupported("line %d: **kwargs" % e.lineno)
         if any(isinstance(a, ast.Starred) for a in e.args):
             raise Unsupported("line %d: *args" % e.lineno)
         args = [self.expr(a, env) for a in e.args]
-        kwargs = {k.arg: self.expr(k.value, env) for k in e.keywords}
+        kwargs = {}
+        for k in e.keywords:
+            v = self.expr(k.value, env)
+            if k.arg is None:
+                # f(**d): d must be a dict with text keys (the keyword arguments it spells out)
+                if not isinstance(v, dict) or not all(isinstance(x, str) for x in v):
+                    raise Unsupported("line %d: ** of %s" % (e.lineno, type(v).__name__))
+                for kk, vv in v.items():
+                    if kk in kwargs:
+                        raise PyRaise("TypeError", "multiple values for keyword argument %s" % kk)
+                    kwargs[kk] = vv
+            else:
+                if k.arg in kwargs:
+                    raise PyRaise("TypeError", "multiple values for keyword argument %s" % k.arg)
+                kwargs[k.arg] = v
         if isinstance(f, ast.Name):
             if f.id in env and isinstance(env[f.id], Closure):
                 c = env[f.id]
